@@ -222,7 +222,7 @@ func (c06) Case(c *core.Ctx) {
 		}
 		c.Count("accept:array-form")
 	case 4:
-		b = []byte([]string{"null", "1", `"s"`, "true", "", " ", "nul", "[]", "[1,2", "{}x", "{} {}", " null", "[null]", "nullx", "-", "1e999", "{", "}", "\xff", "\xef\xbb\xbf{}"}[r.Intn(20)])
+		b = []byte([]string{"null", "1", `"s"`, "true", "", " ", "nul", "[]", "[1,2", "{}x", "{} {}", " null", "[null]", "nullx", "-", "1e999", "{", "}", "\xff", "\xef\xbb\xbf{}", "null [1]", "null{\"a\":1}", "1 [2]", "\"s\" {\"a\":1}", "null\n[1,2]", "true[", "nul[1]", "null \"[\""}[r.Intn(28)])
 	case 5:
 		b = append(b, []byte([]string{" trailing{", "}", "\n{\"a\":1}", ","}[r.Intn(4)])...)
 	case 6:
